@@ -98,7 +98,7 @@ var rangeHeaders = []string{": xs", " :xs", "xs", "i : xs", "i, x : xs", ", x : 
 var badRangeHeaders = []string{"x : num", "i, x : zz", "x : xs[1:]", "i, x : nilv", "i, x : fail()", ""}
 
 func (g *tmplGen) staticAttr(used map[string]bool) TAttr {
-	n := g.r.Pick([]string{"id", "class", "title", "href", "data-a", "x", "lang"})
+	n := g.r.Pick([]string{"id", "class", "title", "href", "data-a", "x", "lang", "viewBox", "onClick", "viewBox"})
 	for used[n] {
 		n += "z"
 	}
@@ -217,7 +217,7 @@ func (g *tmplGen) elem(cond string) *TNode {
 		nd = 1 + g.r.Intn(2)
 	}
 	for i := 0; i < nd; i++ {
-		n := g.r.Pick([]string{"title", "class", "href", "data-a", "value"})
+		n := g.r.Pick([]string{"title", "class", "href", "data-a", "value", "viewBox", "onClick"})
 		if used[g.ap+n] {
 			continue
 		}
